@@ -2,6 +2,7 @@
 package c06
 
 import (
+	stdzip "archive/zip"
 	"context"
 	"fmt"
 	"os"
@@ -27,6 +28,55 @@ type Spec struct {
 	Procs   int     `json:"procs"`
 	Jitter  []byte  `json:"jitter,omitempty"` // consumed one byte per consumer callback: 0 nothing, 1 Gosched, 2.. sleep (b*20us)
 	Reps    int     `json:"reps"`
+	// Deflate: the archive is an ordinary deflate-compressed zip written by the
+	// standard library (what itch.io serves) instead of wharf's own stored zip;
+	// its readers return their last bytes together with io.EOF.
+	Deflate bool `json:"deflate,omitempty"`
+}
+
+// writeDeflateZip writes tree tr (already on disk below dir) as a standard zip.
+func writeDeflateZip(zp, dir string, tr h.Tree) error {
+	fw, err := os.Create(zp)
+	if err != nil {
+		return err
+	}
+	defer fw.Close()
+	zw := stdzip.NewWriter(fw)
+	for _, e := range tr {
+		switch e.Kind {
+		case h.KDir:
+			fh := &stdzip.FileHeader{Name: e.Path + "/"}
+			fh.SetMode(os.ModeDir | 0755)
+			if _, err := zw.CreateHeader(fh); err != nil {
+				return err
+			}
+		case h.KLink:
+			fh := &stdzip.FileHeader{Name: e.Path}
+			fh.SetMode(os.ModeSymlink | 0777)
+			w, err := zw.CreateHeader(fh)
+			if err != nil {
+				return err
+			}
+			if _, err := w.Write([]byte(e.Dest)); err != nil {
+				return err
+			}
+		default:
+			st, err := os.Lstat(filepath.Join(dir, filepath.FromSlash(e.Path)))
+			if err != nil {
+				return err
+			}
+			fh := &stdzip.FileHeader{Name: e.Path, Method: stdzip.Deflate}
+			fh.SetMode(st.Mode())
+			w, err := zw.CreateHeader(fh)
+			if err != nil {
+				return err
+			}
+			if _, err := w.Write(e.C.Bytes()); err != nil {
+				return err
+			}
+		}
+	}
+	return zw.Close()
 }
 
 func indexOf(c *tlc.Container) func(kind, path string) int {
@@ -107,20 +157,31 @@ func check(s Spec) h.Result {
 	}
 	si := &pwr.SignatureInfo{Container: c, Hashes: hs}
 	zp := filepath.Join(d, "build.zip")
-	fw, err := os.Create(zp)
-	if err != nil {
-		return h.Result{Skip: "cannot create archive"}
-	}
-	_, err = archiver.CompressZip(fw, ref, h.Quiet())
-	fw.Close()
-	if err != nil {
-		return h.Failf("CompressZip failed: %v", err)
+	if s.Deflate {
+		if err := writeDeflateZip(zp, ref, s.Tree); err != nil {
+			return h.Result{Skip: "cannot write deflate archive: " + err.Error()}
+		}
+	} else {
+		fw, err := os.Create(zp)
+		if err != nil {
+			return h.Result{Skip: "cannot create archive"}
+		}
+		_, err = archiver.CompressZip(fw, ref, h.Quiet())
+		fw.Close()
+		if err != nil {
+			return h.Failf("CompressZip failed: %v", err)
+		}
 	}
 	if s.Procs > 0 {
 		defer runtime.GOMAXPROCS(runtime.GOMAXPROCS(s.Procs))
 	}
 	cl := h.DmgClasses(s.Tree, s.Damages)
 	cl = append(cl, fmt.Sprintf("gomaxprocs:%d", s.Procs))
+	if s.Deflate {
+		cl = append(cl, "archive:deflate-zip")
+	} else {
+		cl = append(cl, "archive:stored-zip")
+	}
 	reps := s.Reps
 	if reps < 1 {
 		reps = 1
@@ -236,6 +297,7 @@ var prop = h.Prop[Spec]{
 			s.Jitter = rapid.SliceOfN(rapid.Byte(), 1, 12).Draw(t, "jitter-bytes")
 		}
 		s.Reps = 2
+		s.Deflate = rapid.IntRange(0, 2).Draw(t, "deflate-archive") == 0
 		return s
 	},
 	Check: check,
